@@ -281,6 +281,10 @@ func (f *fragmentList) build(in *layers.IPv4) (*layers.IPv4, error) {
 	for e := f.List.Front(); e != nil; e = e.Next() {
 		frag, _ := e.Value.(*layers.IPv4)
 		fragLength := frag.Length - uint16(frag.IHL)*4
+		if int(frag.Length)-int(frag.IHL)*4 != len(frag.Payload) {
+			// truncated capture or handcrafted layer: the bytes cannot be placed
+			return nil, errors.New("defrag: building - fragment payload does not match its header")
+		}
 		if frag.FragOffset*8 == currentOffset {
 			debug.Printf("defrag: building - adding %d\n", frag.FragOffset*8)
 			final = append(final, frag.Payload...)
